@@ -179,10 +179,20 @@ class SetEncoder(encoder.SequenceEncoder):
 
             namedTypes = value.componentType
 
-            for idx, component in enumerate(value.values()):
+            for idx in range(len(namedTypes) or len(value)):
                 if namedTypes:
                     namedType = namedTypes[idx]
 
+                    # an absent OPTIONAL component must not come into
+                    # being (possibly as an empty value) by looking at it
+                    if (namedType.isOptional and
+                            value.getComponentByPosition(
+                                idx, instantiate=False) is univ.noValue):
+                        continue
+
+                component = value[idx]
+
+                if namedTypes:
                     if namedType.isOptional and not component.isValue:
                             continue
 
